@@ -144,7 +144,9 @@ def install():
     # the observer is installed for EVERY configured range: a single address (min == max, in any spelling), a huge one, bounds
     # at 0 -- what the range object looks like (length, truthiness) never decides whether the option is honoured
     for lo, hi in (("0x402000", "402000"), ("402000", "0x402000"), ("0", "0"), ("0x0", "0xffffffffffffffff"), ("0x00401fff", "401fff"),
-                   ("1", "2"), ("0x10", "0x1f")):
+                   ("1", "2"), ("0x10", "0x1f"),
+                   # bounds whose TEXT order differs from their numeric order (different digit counts / prefixes)
+                   ("0x400000", "0x180ffffff"), ("400000", "0x180ffffff"), ("9", "10"), ("0xff", "0x100"), ("0xf", "10"), ("0x9", "0xA0")):
         cfg = J.gd.JASMConfig()
         cfg.load_config({"valid_addr_range": {"min": lo, "max": hi}})
         mop = J.match.MasterOfPuppets.__new__(J.match.MasterOfPuppets)
